@@ -62,7 +62,9 @@ def make_cells(rng, recs, d, n, hostile):
     return cells
 
 
-OTHER = ["o", "", "a,b", 'q"z', "x\ty", "l1\nl2", "c\rd", "e\r\nf", " s ", "é", "a;b|c"]
+OTHER = ["o", "", "a,b", 'q"z', "x\ty", "l1\nl2", "c\rd", "e\r\nf", " s ", "é", "a;b|c",
+         # characters that are line boundaries for str.splitlines but not for a file opened with newline=""
+         "v\x0bt", "f\x0cf", "fs\x1c", "gs\x1dx", "rs\x1e", "nel\x85x", "ls\u2028x", "ps\u2029"]
 
 
 def write_table(path, head, rows, sep, lineterminator):
